@@ -97,6 +97,39 @@ def name_from_shape(eng, shape, tag='n'):
     return out
 
 
+def name_wire(name):
+    """Name TLV written by the harness (list of byte elements)"""
+    body = []
+    for c in name:
+        body += blist(c)
+    n = len(body)
+    ln = [n] if n <= 0xFC else [0xFD] + list(n.to_bytes(2, 'big'))
+    return [7] + ln + body
+
+
+NAME_FORMS = ['list', 'tuple', 'iter', 'gen', 'wire', 'mview']
+
+
+def name_in_form(name, form):
+    """the same name in another accepted representation (NonStrictName): list, tuple, one-shot iterator, generator,
+    encoded bytes, memoryview of the encoding"""
+    from symex.api import mview
+    if form == 'list':
+        return list(name)
+    if form == 'tuple':
+        return tuple(name)
+    if form == 'iter':
+        return iter(list(name))
+    if form == 'gen':
+        return (c for c in list(name))
+    w = bwrap(name_wire(name))
+    if form == 'wire':
+        return w
+    if form == 'mview':
+        return mview(w)
+    raise AssertionError(form)
+
+
 def names_equal(a, b):
     """component-wise equality of two formal names (lists of byte strings)"""
     if len(a) != len(b):
@@ -113,6 +146,7 @@ def names_equal(a, b):
 # ---------------------------------------------------------------------------------------------
 # signers (shipped classes on top of the ideal primitives)
 # ---------------------------------------------------------------------------------------------
+ECDSA_CURVES = {'ecdsa': 'NIST P-256', 'ecdsa224': 'NIST P-224', 'ecdsa384': 'NIST P-384', 'ecdsa521': 'NIST P-521'}
 SIGNER_KINDS = ['none', 'null', 'digest', 'hmac', 'rsa', 'ecdsa', 'ed25519']
 KEY_NAME = '/k/KEY/1'
 
@@ -130,8 +164,8 @@ def make_signer(eng, kind, for_interest=False, rmin=0, key_ident='k', rmax=None)
         return sec.HmacSha256Signer(KEY_NAME, b'hmac-key-' + key_ident.encode())
     if kind == 'rsa':
         return sec.Sha256WithRsaSigner(KEY_NAME, crypto.make_key('rsa', key_ident))
-    if kind == 'ecdsa':
-        s = sec.Sha256WithEcdsaSigner(KEY_NAME, crypto.make_key('ecc', key_ident))
+    if kind in ECDSA_CURVES:
+        s = sec.Sha256WithEcdsaSigner(KEY_NAME, crypto.make_key('ecc', key_ident, ECDSA_CURVES[kind]))
 
         def sig_len(k, mx):
             return eng.int('r', rmin, mx if rmax is None else min(mx, rmax))
@@ -142,7 +176,8 @@ def make_signer(eng, kind, for_interest=False, rmin=0, key_ident='k', rmax=None)
     raise AssertionError(kind)
 
 
-SIG_TYPE = {'null': 200, 'digest': 0, 'hmac': 4, 'rsa': 1, 'ecdsa': 3, 'ed25519': 5}
+SIG_TYPE = {'null': 200, 'digest': 0, 'hmac': 4, 'rsa': 1, 'ecdsa': 3, 'ed25519': 5, 'ecdsa224': 3, 'ecdsa384': 3,
+            'ecdsa521': 3}
 SIG_SIZE = {'null': 0, 'digest': 32, 'hmac': 32, 'rsa': 256, 'ecdsa': 72, 'ed25519': 64}
 
 
